@@ -801,3 +801,111 @@ def arraypat_fn(text, features):
 
 def arraypat_unit(text, features):
     return "use vstd::prelude::*;\nverus! {\n" + ARRAYPAT_MODEL + arraypat_fn(text, features) + vlib.verus_canary("canary_arraypat", "x: u64", []) + "\n} // verus!\nfn main() {}\n"
+
+
+# ---- the tuple-struct arm (`:Name(p1, .., pn)`) of pattern_matches_value_with_semantics -------------------------------------------------------
+TSPAT_MODEL = """
+#[derive(Clone, Copy)]
+pub struct Identifier { pub id: u64 }
+pub uninterp spec fn ident_hash(i: Identifier) -> u64;
+impl Identifier {
+  #[verifier::external_body] pub fn hash(&self) -> (r: u64) ensures r == ident_hash(*self), { unimplemented!() }
+  pub fn clone(&self) -> (r: Identifier) ensures r == *self, { *self }
+}
+pub struct Atom { pub name: Identifier }
+pub struct PatternTupleStruct { pub name: Identifier, pub patterns: Vec<Pattern> }
+pub enum Pattern { TupleStruct(PatternTupleStruct), Other(u64) }
+pub struct MechTuple { pub elements: Vec<Value> }
+pub struct MechEnum { pub variants: Vec<(u64, Option<Value>)> }
+pub enum Value { Enum(MechEnum), Tuple(MechTuple), Other(u64) }
+pub struct MechError { pub id: u64 }
+pub struct Interpreter { pub id: u64 }
+#[derive(Clone, Copy)]
+pub struct PatternMatchSemantics { pub id: u64 }
+pub struct Environment { pub st: Ghost<int> }
+pub uninterp spec fn pm_res(pat: Pattern, v: Value, sem: u64, st: int) -> Option<bool>;
+pub uninterp spec fn pm_env(pat: Pattern, v: Value, sem: u64, st: int) -> int;
+pub uninterp spec fn atom_of(name: Identifier) -> Value;          // the value of the atom `:Name`
+pub uninterp spec fn vmatch(a: Value, b: Value) -> bool;          // values_match
+pub uninterp spec fn detach(v: Value) -> Value;                   // deep_detach_value
+#[verifier::external_body]
+pub fn pattern_matches_value_with_semantics_rec(pattern: &Pattern, value: &Value, env: &mut Environment, p: &Interpreter, semantics: PatternMatchSemantics) -> (r: Result<bool, MechError>)
+  ensures (match r { Ok(b) => pm_res(*pattern, *value, semantics.id, old(env).st@) == Some(b), Err(_) => pm_res(*pattern, *value, semantics.id, old(env).st@) is None }),
+    final(env).st@ == pm_env(*pattern, *value, semantics.id, old(env).st@),
+{ unimplemented!() }
+#[verifier::external_body]
+pub fn atom(a: &Atom, p: &Interpreter) -> (r: Value) ensures r == atom_of(a.name), { unimplemented!() }
+#[verifier::external_body]
+pub fn values_match(a: &Value, b: &Value) -> (r: bool) ensures r == vmatch(*a, *b), { unimplemented!() }
+#[verifier::external_body]
+pub fn deep_detach_value(v: &Value) -> (r: Value) ensures r == detach(*v), { unimplemented!() }
+pub open spec fn zip_len(a: int, b: int) -> int { if a <= b { a } else { b } }
+#[verifier::external_body]
+pub fn zip_count(a: usize, b: usize) -> (r: usize) ensures r == zip_len(a as int, b as int), { unimplemented!() }
+pub open spec fn outcome(r: Result<bool, MechError>) -> Option<bool> { match r { Ok(b) => Some(b), Err(_) => None } }
+pub open spec fn all_match_off(pats: Seq<Pattern>, vals: Seq<Value>, off: int, k: int, sem: u64, st: int) -> (Option<bool>, int)
+  decreases pats.len() - k,
+{
+  if k < 0 || k >= pats.len() || off + k >= vals.len() { (Some(true), st) } else {
+    let st1 = pm_env(pats[k], vals[off + k], sem, st);
+    match pm_res(pats[k], vals[off + k], sem, st) {
+      None => (None, st1),
+      Some(b) => if b { all_match_off(pats, vals, off, k + 1, sem, st1) } else { (Some(false), st1) },
+    }
+  }
+}
+// ---- THE CONTRACT (C16 / C17: "an arm whose pattern matches"): `:Name(p1, .., pn)` matches (a) an enum value holding exactly the variant Name, whose payload (if any)
+// matches the single element pattern (no payload: no element patterns); (b) a tuple whose first element is the atom :Name and whose remaining n elements match
+// p1 .. pn left to right in one environment; nothing else
+pub open spec fn tuple_struct_match(ps: PatternTupleStruct, v: Value, sem: u64, st: int) -> (Option<bool>, int) {
+  match v {
+    Value::Enum(e) => if e.variants@.len() != 1 { (Some(false), st) } else {
+      let (vid, payload) = e.variants@[0];
+      if vid != ident_hash(ps.name) { (Some(false), st) } else {
+        match payload {
+          Some(pv) => if ps.patterns@.len() != 1 { (Some(false), st) } else { (pm_res(ps.patterns@[0], pv, sem, st), pm_env(ps.patterns@[0], pv, sem, st)) },
+          None => (Some(ps.patterns@.len() == 0), st),
+        }
+      }
+    },
+    Value::Tuple(t) => if t.elements@.len() != ps.patterns@.len() + 1 { (Some(false), st) }
+                       else if !vmatch(atom_of(ps.name), detach(t.elements@[0])) { (Some(false), st) }
+                       else { all_match_off(ps.patterns@, t.elements@, 1, 0, sem, st) },
+    _ => (Some(false), st),
+  }
+}
+"""
+
+
+def tspat_fn(text, features):
+    """the arm `Pattern::TupleStruct(pat_struct) => {..}` of `pattern_matches_value_with_semantics` as `fn tuple_struct_arm(pat_struct, detached_value, env, p, semantics)`:
+    `X.borrow()` on the enum / tuple cell -> `&X`; `let (a, b) = &V[0];` -> two field bindings; `for (a, b) in PS.patterns.iter().zip(T.elements.iter().skip(1))` -> index loop
+    over min(len) reading `T.elements[1 + k]`; the recursive call -> the stand-in `.._rec`; cfg attributes evaluated.  ASSUMED: patterns.len() + 1 does not overflow"""
+    sig, body = extract_fn(text, "pattern_matches_value_with_semantics")
+    b = apply_cfg(re.sub(r"//[^\n]*", "", body).replace("\r", ""), features)
+    m = re.search(r"Pattern::TupleStruct\(\s*(\w+)\s*\)\s*=>\s*\{", b)
+    if not m:
+        raise AnchorLost("pattern_matches_value_with_semantics: the arm `Pattern::TupleStruct(..)` not found")
+    ps = m.group(1)
+    arm = b[m.end():match_brace(b, m.end() - 1) - 1]
+    arm = re.sub(r"\s*\n\s*\.", ".", arm)
+    arm = arm.replace("pattern_matches_value_with_semantics(", "pattern_matches_value_with_semantics_rec(")
+    arm = re.sub(r"\b(\w+)\.borrow\(\)", r"&\1", arm)
+    arm = re.sub(r"let\s+\(\s*(\w+)\s*,\s*(\w+)\s*\)\s*=\s*&([\w\.]+\[\d+\])\s*;", r"let \1 = &\3.0; let \2 = &\3.1;", arm)
+    arm = re.sub(r"Atom\s*\{\s*name\s*:\s*([\w\.\(\)]+)\s*,\s*\}", r"Atom { name: \1 }", arm)
+    def loop(mm):
+        a_, b_, xs, ys = mm.group(1), mm.group(2), mm.group(3), mm.group(4)
+        return ("let zn_ = zip_count(%s.len(), %s.len() - 1);\n          for z_ in 0..zn_\n"
+                "            invariant zn_ == zip_len(%s@.len() as int, %s@.len() - 1), %s@.len() == %s@.len() + 1, st0 == old(env).st@,\n"
+                "              tuple_struct_match(*%s, detached_value, semantics.id, st0) == all_match_off(%s@, %s@, 1, z_ as int, semantics.id, env.st@),\n"
+                "          {\n            let %s = &%s[z_]; let %s = &%s[1 + z_];" % (xs, ys, xs, ys, ys, xs, ps, xs, ys, a_, xs, b_, ys))
+    arm, n = re.subn(r"for\s+\(\s*(\w+)\s*,\s*(\w+)\s*\)\s+in\s+([\w\.]+)\.iter\(\)\.zip\(\s*([\w\.]+)\.iter\(\)\.skip\(1\)\s*\)\s*\{", loop, arm)
+    if n != 1 or re.search(r"\b(iter|zip|skip|borrow)\b", arm):
+        raise AnchorLost("pattern_matches_value_with_semantics: the tuple-struct arm is outside the transcription rules")
+    return ("fn tuple_struct_arm(%s: &PatternTupleStruct, detached_value: Value, env: &mut Environment, p: &Interpreter, semantics: PatternMatchSemantics) -> (res: Result<bool, MechError>)\n"
+            "  requires %s.patterns@.len() < usize::MAX,\n"
+            "  ensures (outcome(res), final(env).st@) == tuple_struct_match(*%s, detached_value, semantics.id, old(env).st@),\n{\n  let ghost st0 = env.st@;\n" % (ps, ps, ps) + arm + "\n}\n")
+
+
+def tspat_unit(text, features):
+    return "use vstd::prelude::*;\nverus! {\n" + TSPAT_MODEL + tspat_fn(text, features) + vlib.verus_canary("canary_tspat", "x: u64", []) + "\n} // verus!\nfn main() {}\n"
